@@ -70,6 +70,27 @@ def gen(prog, cs, fname, opts=None):
     return vc
 
 
+def gen_iface_impl(prog, cs, fname, ikey):
+    """the implementation fname checked against the contract of the interface method it implements
+    (behavioural subtyping): interface requires/ensures/assigns + the function's own loop invariants"""
+    import copy
+    ic = cs.ifaces[ikey]
+    own = cs.funcs.get(fname)
+    fc = copy.copy(ic)
+    fc.key = fname
+    fc.loops = own.loops if own is not None else {}
+    fc.uses = own.uses if own is not None else []
+    fc.decreases = own.decreases if own is not None else None
+    fc.tags = list(ic.tags)
+    func = prog.funcs[fname]
+    vc = VC(prog, cs, fname)
+    vc.label = 'iface %s.%s' % (ikey[0].rsplit('/', 1)[-1], ikey[1])
+    ex = verify_function(vc, func, fc)
+    for o in vc.obls:
+        o.name = o.name.replace('#', '#[as %s]' % vc.label, 1)
+    return vc
+
+
 def gen_lemma(prog, cs, name):
     lm = cs.lemmas[name]
     vc = VC(prog, cs, 'lemma ' + name)
